@@ -167,8 +167,64 @@ class H(common.Harness):
         return fs
 
 
+class HPost(common.Harness):
+    """placeholder pages: CitationBase.__post_init__ turns the page group into None exactly when the page
+    text consists of underscores - for every page text of <= N symbolic characters."""
+
+    def __init__(self, params):
+        super().__init__(params)
+        import eyecite.models as M
+
+        from vf import symre
+
+        self.M, self.symre = M, symre
+        self.N = params["N"]
+        symre.install(self.interp)
+
+    def run(self):
+        eng, M = self.eng, self.M
+        n = eng.choose([z3.Int("len") == k for k in range(self.N + 1)])
+        page = self.symre.CStr.fresh(eng, n)
+        for ch in page.chars:
+            eng.add(ch != 10)  # a page group never contains a line break (every page pattern is \d / letters / _ )
+        self.page = page
+        cls = [M.FullCaseCitation, M.ShortCaseCitation, M.FullJournalCitation][eng.choose([z3.Int("cls") == k for k in range(3)])]
+        tok = M.CitationToken("1 X 1", 0, 5, groups={"volume": "1", "reporter": "X", "page": page})
+        c = self.interp.instantiate(cls, (tok, 0), {})
+        return c
+
+    def witness(self, m):
+        return {"page": self.page.concrete(m)}
+
+    def describe(self, kind, out):
+        m = self.eng.path_model()
+        return self.witness(m) if m is not None else {}
+
+    def judge(self, kind, out):
+        if kind == "exc":
+            return [self.check("C16:no_exception:" + type(out).__name__, False, self.witness)]
+        got_none = out.groups["page"] is None
+        chars = self.page.chars
+        all_us = z3.And(*[ch == 0x5F for ch in chars]) if chars else z3.BoolVal(False)
+        return [self.check("C16:placeholder_page_iff_all_underscores", all_us if got_none else z3.Not(all_us), self.witness)]
+
+
 def make(params):
-    return H(params)
+    return HPost(params) if params.get("part") == "post_init" else H(params)
+
+
+def replay_post(w):
+    import eyecite.models as M
+
+    tok = M.CitationToken("1 X 1", 0, 5, groups={"volume": "1", "reporter": "X", "page": w["page"]})
+    a, b = M.FullCaseCitation(tok, 0), M.FullCaseCitation(M.CitationToken("1 X 1", 0, 5, groups={"volume": "1", "reporter": "X", "page": w["page"]}), 0)
+    is_ph = bool(w["page"]) and set(w["page"]) == {"_"}
+    bad = []
+    if (a.groups["page"] is None) != is_ph:
+        bad.append("C16:placeholder_page_iff_all_underscores")
+    if is_ph and (a == b or hash(a) == hash(b)):
+        bad.append("C16:placeholder_citations_equal_only_to_themselves")
+    return bad
 
 
 # ---------------------------------------------------------------- replay
@@ -311,6 +367,27 @@ def check(rep):
         else:
             rep.spurious += 1
             rep.inconc(f"{f['clause']}: model did not reproduce: {w}")
+    # placeholder pages through the real __post_init__
+    aggp = common.explore_split("vf.harness.c16", {"part": "post_init", "N": 4 if quick else 6}, depth=3)
+    rep.merge_explore("placeholder_pages", aggp)
+    rep.bounds.append(f"placeholder clause: page texts of <= {4 if quick else 6} symbolic code points other than a line break")
+    n_ob = sum(aggp["verdicts"].values())
+    n_ok = sum(v for k, v in aggp["verdicts"].items() if k.endswith(":valid"))
+    rep.oblige(n_ok)
+    rep.oblige(n_ob - n_ok, ok=False)
+    for f in aggp["findings"]:
+        if f["verdict"] != "cex":
+            rep.inconc(f"placeholder/{f['clause']}: solver verdict {f['verdict']}")
+            continue
+        rep.replays += 1
+        bad = replay_post(f["witness"])
+        if bad:
+            if ("post", tuple(bad)) not in seen:
+                seen.add(("post", tuple(bad)))
+                rep.violation(f"citation with page text {f['witness']['page']!r}: {bad}", {"kind": "post", "witness": f["witness"]})
+        else:
+            rep.spurious += 1
+            rep.inconc(f"placeholder model did not reproduce: {f['witness']}")
     db_normalisation(rep)
     return rep.finish(
         explanation=f"Path-exhaustive symbolic execution of the real __hash__/__eq__/corrected_reporter/guess_edition/Resource source on {N} citation objects with symbolic identity attributes and poisoned context; per path: equivalence laws, ==/hash/Resource agreement, and 'equal iff same class, volume, page and normalised reporter, no placeholder' as z3 validity queries.",
@@ -322,6 +399,10 @@ def replay_file(path):
     import json
 
     r = json.load(open(path))["replay"]
+    if r["kind"] == "post":
+        bad = replay_post(r["witness"])
+        print(bad)
+        return 1 if bad else 0
     if r["kind"] == "model":
         bad = concrete_oracle(build_concrete(r["witness"]), r["witness"])
         print(bad)
